@@ -87,9 +87,10 @@ def terminal_classes(prog):
                 and norm(node.test.left).endswith('.terminal') \
                 and isinstance(node.test.ops[0], ast.Eq) \
                 and isinstance(node.test.comparators[0], ast.Constant):
-            for stmt in node.body:
-                if isinstance(stmt, ast.Return) and isinstance(stmt.value, ast.Call):
-                    res[node.test.comparators[0].value] = call_name(stmt.value)
+            for body_stmt in node.body:
+                for stmt in ast.walk(body_stmt):
+                    if isinstance(stmt, ast.Return) and isinstance(stmt.value, ast.Call):
+                        res[node.test.comparators[0].value] = call_name(stmt.value)
     return res
 
 
